@@ -96,7 +96,21 @@ def int_coord_array(ctx, name, n, nominal, dtype):
 EXPLICIT_NAMES = False
 
 
+# True: a rotated-pole file - the grid dimensions have 1-D axes of their own (standard names grid_latitude /
+# grid_longitude, units degrees) stored ahead of the true 2-D latitude / longitude
+ROTATED_AXES = False
+
+
 def _named(P, cls):
+    if ROTATED_AXES:
+        import xarray
+        ydim, xdim = P.ds['lat'].dims if P.ds['lat'].ndim == 2 else (P.ds['lat'].dims[0], P.ds['lon'].dims[0])
+        axes = {'rlat': ((ydim,), numpy.arange(P.ds.sizes[ydim]) * 0.5 - 3.0, {'standard_name': 'grid_latitude', 'units': 'degrees', 'long_name': 'latitude in rotated pole grid'}),
+                'rlon': ((xdim,), numpy.arange(P.ds.sizes[xdim]) * 0.5 + 7.0, {'standard_name': 'grid_longitude', 'units': 'degrees', 'long_name': 'longitude in rotated pole grid'})}
+        first = xarray.Dataset({k: xarray.Variable(*v) for k, v in axes.items()})
+        rest = P.ds.reset_coords()
+        ds = xarray.Dataset({**first.variables, **{k: v for k, v in rest.variables.items()}}, attrs=P.ds.attrs)
+        P.ds = ds.set_coords([c for c in P.ds.coords if c in ds.variables])
     if not EXPLICIT_NAMES:
         return cls(P.ds)
     ds = P.ds.rename({'lat': 'gy', 'lon': 'gx'})
